@@ -14,7 +14,8 @@ Z, R = z3.IntSort(), z3.RealSort()
 class DataSegment(Contract):
     target = 'FlowCal.io.read_fcs_data_segment'
     property_ids = ('C01', 'C16')
-    assumptions = ('read_fcs_data_segment: at least one parameter (D >= 1); mixed integer widths are outside the prover (np.sum/np.roll/'
+    assumptions = ('read_fcs_data_segment: at least one parameter (D >= 1); the buffer holds at least the 58-byte HEADER (an empty file '
+                   'cannot be memory-mapped even for zero events); mixed integer widths are outside the prover (np.sum/np.roll/'
                    'np.cumsum over a symbolic number of parameters, dtype chosen at run time): decided by the bounded stand-in only',
                    'A-IO: np.memmap semantics; A-INT: x & (2^k-1) == x mod 2^k; A-REAL: ceil/log2 uninterpreted with ceil(x)-1 < x <= ceil(x)')
     max_paths = 400
@@ -39,6 +40,7 @@ class DataSegment(Contract):
         fm = buf.payload
         begin, end, N, D = c.fresh_int('begin'), c.fresh_int('end'), c.fresh_int('N'), c.fresh_int('D')
         c.assume(z3.And(begin >= 0, end >= 0, N >= 0, D >= 1))
+        c.assume(fm.size >= 58)          # the buffer is an FCS file: it holds at least the HEADER
         big = c.fresh_bool('big_endian')
         aux = {'fm': fm, 'begin': begin, 'end': end, 'N': N, 'D': D, 'big': big}
         w = case['w']
